@@ -74,6 +74,7 @@ type VC struct {
 	siteOrd        map[ssa.Instruction]int
 	fmtIDs         map[string]int
 	sprintfFormats map[string]string
+	owned          []string // objects declared with `owns` (terms at function entry)
 	recHeaps       map[string]string // heap components read while a fold body is translated
 	trivial        map[string]bool   // obligations whose goal was decided during generation
 }
